@@ -200,6 +200,23 @@ def trait_method(run, f, d, fn, trait, self_ty):
                         dd = list(d2) + list(d3)
                         if x[0] == "try_ok" and is_up(x[1]) and dd and all(z == want for z in dd):
                             n_some += 1
+            # ... or with an explicit match: `match ActorWeak::upgrade(self) { Some(r) => Some(Box::new(r)), None => None }`
+            if not (n_some == 1 and n_none == 1 and len(mem) == 2):
+                r3 = tr.norm(tr.local(0))
+                mem3 = list(r3[1]) if r3[0] == "phi" else [r3]
+                n_some = n_none = 0
+                for mm in mem3:
+                    core3, d2 = peel(tr, mm)
+                    if core3[0] == "agg" and core3[1][:3] == ("adt", "std::option::Option", "None"):
+                        n_none += 1
+                    elif core3[0] == "agg" and core3[1][:3] == ("adt", "std::option::Option", "Some"):
+                        inner, d3 = peel(tr, core3[2][0])
+                        if is_box_new(tr, inner):
+                            x = strip_refs(tr.norm(tr.call_args(inner[1])[0]))
+                            dd = list(d2) + list(d3)
+                            if x[0] == "field" and x[1] == 0 and x[2][0] == "downcast" and x[2][1] == "Some" and is_up(x[2][2]) and dd and all(z == want for z in dd):
+                                n_some += 1
+                mem = mem3
             if n_some == 1 and n_none == 1 and len(mem) == 2:
                 okc = clos_ok = True
                 calls = [b for b in calls if (fn_path(b.term) or "") not in ("core::ops::try_trait::Try::branch", "core::ops::try_trait::FromResidual::from_residual") and not is_box_new(tr, ("call", b.idx, callee(b.term) or ""))]
